@@ -38,7 +38,7 @@ static int c06_main(int argc,char **argv){
   while((line=readline_(stdin))){
     int n=split(line,tok,16);
     if(n==0){ free(line); continue; }
-    if(!strcmp(tok[0],"case")){ printf("== case %s\n",n>1?tok[1]:"?"); fflush(stdout); }
+    if(!strcmp(tok[0],"case")){ printf("== case %s\n",n>1?tok[1]:"?"); fflush(stdout); case_watchdog(); }
     else if(!strcmp(tok[0],"sig")&&n>=8){
       int ch=atoi(tok[1]); long rate=atol(tok[2]); int mode=atoi(tok[3]); double qv=atof(tok[4]); long N=atol(tok[5]); int cls=atoi(tok[6]); long seed=atol(tok[7]);
       vorbis_info vi,dvi; vorbis_comment vc,dvc; vorbis_dsp_state vd,dvd; vorbis_block vb,dvb; ogg_packet op,h[3]; int rc,c,k,eos=0,finite=1; long done=0,outn=0;
